@@ -34,6 +34,10 @@ pub fn unesc(s: &str) -> String {
     o
 }
 
+pub fn arg_text_pub(t: &PTree) -> String {
+    arg_text(t)
+}
+
 fn arg_text(t: &PTree) -> String {
     match t {
         PTree::Leaf(tok, st, _, false) => format!("L{}:{}", tok, st / STRIDE),
